@@ -3,6 +3,7 @@
    _compile_collect on call arguments, and the function body (implicit return,
    docstring) of compile_function_node.  No proofs here. *)
 From HyV Require Import Ops.PyBinding Gen.LambdaTables.
+Close Scope string_scope.
 
 (* ------------------------------------------------------------------ *)
 (* 1. Tokens of a lambda list and the grammar                          *)
@@ -156,9 +157,6 @@ Arguments TStar {D}.
 Arguments TUnpackIter {D} _ _.
 Arguments TUnpackMap {D} _ _.
 Arguments TOther {D}.
-Arguments RNone.
-Arguments RBare.
-Arguments RVar _.
 
 (* ------------------------------------------------------------------ *)
 (* 4. _compile_collect(exprs, with_kwargs=True): the arguments of a call *)
@@ -195,7 +193,7 @@ Fixpoint collect (l : list aform) : collect_err + (list E * list kwarg_ast) :=
       match r with
       | [] => inl CNeedsValue
       | v :: r' =>
-          if String.eqb n "" then inl CEmptyKeyword
+          if String.eqb n EmptyString then inl CEmptyKeyword
           else match collect r' with
                | inr (ps, ks) => inr (ps, KwNamed (mangle n) (form_expr v kw_obj) :: ks)
                | inl x => inl x
@@ -252,13 +250,13 @@ Record result := { r_stmts : list bstmt; r_expr : option bexpr }.
 
 (* a body form: its source kind and the Result the compiler produces for it *)
 Inductive bform :=
-| BStrLit (s : string)                      (* a string literal: compiles to Constant(s) *)
-| BForm (is_literal_string : bool) (res : result).   (* any other form, with what it compiles to *)
+| BStrLit (s : string)          (* a string literal: compiles to Constant(s) *)
+| BForm (res : result).         (* any form that is NOT a string literal, with what it compiles to *)
 
 Definition compile_bform (f : bform) : result :=
   match f with
   | BStrLit s => {| r_stmts := []; r_expr := Some (EStr s) |}
-  | BForm _ res => res
+  | BForm res => res
   end.
 
 (* Result.expr_as_stmt: a bare Name after statements is dropped *)
